@@ -32,7 +32,7 @@ class RegexV:
 
 
 def parse_regex(e, chars):
-    pos = [0]; n = len(chars); ngroups = [0]
+    pos = [0]; n = len(chars); ngroups = [0]; flags = {}
     def peek(): return chars[pos[0]] if pos[0] < n else None
     def is_c(c, lit):
         if c is None: return False
@@ -62,6 +62,9 @@ def parse_regex(e, chars):
             gi = None
             if peek() is not None and is_c(peek(), '?'):
                 pos[0] += 1
+                if isinstance(peek(), int) and peek() == ord('s') and pos[0] + 1 < n and isinstance(chars[pos[0] + 1], int) and chars[pos[0] + 1] == ord(')'):
+                    pos[0] += 2; flags['s'] = True      # (?s): '.' also matches a newline, from here on
+                    return ('seq', [])
                 if not is_c(peek(), ':'): raise Unsupported('group flags')
                 pos[0] += 1
             else:
@@ -71,7 +74,7 @@ def parse_regex(e, chars):
             pos[0] += 1
             return ('group', r, gi)
         if is_c(c, '['): return klass()
-        if is_c(c, '.'): return ('any',)
+        if is_c(c, '.'): return ('anynl',) if flags.get('s') else ('any',)
         if is_c(c, '^'): return ('bol',)
         if is_c(c, '$'): return ('eol',)
         if is_c(c, '\\'):
@@ -148,6 +151,8 @@ def match_node(e, node, chars, i, k):
     if t == 'lit':
         if i < n and e.branch(s_eq(chars[i], node[1])): return k(i + 1)
         return None
+    if t == 'anynl':
+        return k(i + 1) if i < n else None
     if t == 'any':
         if i < n and not e.branch(s_eq(chars[i], 10)): return k(i + 1)
         return None
@@ -219,7 +224,7 @@ def _(e, c, a, raw):
 @model('regex::Match::as_str', 'Match::as_str')
 def _(e, c, a, raw):
     m = e.deref(a[0]); return Str(m.slots[0].chars[m.slots[1]:m.slots[2]])
-@model('regex::escape')
+@model('regex::escape', 'escape')
 def _(e, c, a, raw):
     out = []
     for ch in S(e, a[0]).chars:
